@@ -47,21 +47,21 @@ type Control struct {
 type Ctx struct {
 	respSpec  bool            // ruleTemplates reads spec/responses.spec
 	sqlFacets map[string]bool // when set, compareToSpec judges only these facets of a statement
-	P        *Program
-	Prop     string
-	Tier     string
-	Seed     int64
-	Obls     []*Obl
-	Floors   []Floor
-	Controls []Control
-	Analysed map[string]int
-	Notes    []string
-	Clauses  []string // what is decided, in words
-	NotDec   []string // what is not decided
-	Assume   []string
-	rule     string // current rule family
-	start    time.Time
-	shared   map[string]any
+	P         *Program
+	Prop      string
+	Tier      string
+	Seed      int64
+	Obls      []*Obl
+	Floors    []Floor
+	Controls  []Control
+	Analysed  map[string]int
+	Notes     []string
+	Clauses   []string // what is decided, in words
+	NotDec    []string // what is not decided
+	Assume    []string
+	rule      string // current rule family
+	start     time.Time
+	shared    map[string]any
 }
 
 func (c *Ctx) add(v Verdict, key string, pos token.Pos, detail string) *Obl {
